@@ -194,6 +194,10 @@ func lxGenGrammar(rng *rand.Rand, idx int) *lxGrammar {
 	if rng.Intn(3) == 0 && !g.scanBytes {
 		add(lxRule{name: "uni", pattern: `[\p{Lu}\x{1F600}]+`})
 	}
+	if rng.Intn(5) == 0 && !g.scanBytes {
+		// the highest code point any rule mentions is U+07FF: the symbol map's last segment starts exactly at 2048
+		add(lxRule{name: "b2", pattern: `[\x{700}-\x{7ff}]+`})
+	}
 	if rng.Intn(3) == 0 && !g.scanBytes {
 		add(lxRule{name: "han", pattern: `[\x{4e00}-\x{9fff}\x{ac00}-\x{d7a3}]+`})
 	}
@@ -216,7 +220,7 @@ func lxGenGrammar(rng *rand.Rand, idx int) *lxGrammar {
 func lxText(rng *rand.Rand, g *lxGrammar) []byte {
 	words := []string{"if", "in", "int", "a", "ab0", "x", "é", "жa", "aж", "abc", "12", "1.5", "1.", "1.5e", "1.5e3", "+", "++", "+=", "+==", "\"s\"", "\"s", "//c", " ", "\n", "\t", "\n\n",
 		"É", "IF", "😀", "Ж", "_", "x\n", "xx", "-", ".", "y0",
-		"漢", "字", "\u4dff", "\ua000", "漢\ua000", "\u9fff", "\uabff", "\ud7a4", "한", "\U0001F5FF", "\U0001F601", "з", "è", "×",
+		"ключ", "αβ", "\u07ff", "\u0700\u07ff", "\u0800", "\u06ff", "ж\u0700", "漢", "字", "\u4dff", "\ua000", "漢\ua000", "\u9fff", "\uabff", "\ud7a4", "한", "\U0001F5FF", "\U0001F601", "з", "è", "×",
 		"~", "^", "~=", "^=", "~=>", "^=>", "^=1", "/", "/*c*/", "/* c\n*/", "/*", "/**/", "/* a */ ", "#"}
 	var b []byte
 	n := rng.Intn(9)
